@@ -9,7 +9,7 @@ LEVEL = ('TLC checks the property\'s invariants / action properties on every sta
          'between two runs, the relation TLC verified on the specification is demanded of two implementation runs)')
 NOTE = 'bounded model (constants in spec/cfg/*.cfg); TLC, the Rust harness (number codec, renderer) and rust_decimal are trusted'
 CHECKS = {
- 'C01': ('tlc-cgt', 'TLA+ spec Cgt.tla (matcher state machine) model-checked with TLC; spec->impl replay of every TLC behaviour (legs, costs, proceeds, gains) at several base dates and line orders'),
+ 'C01': ('tlc-cgt', 'TLA+ spec Cgt.tla (matcher state machine) model-checked with TLC; spec->impl replay of every TLC behaviour (legs, costs, proceeds, gains) at several base dates and line orders; implementation-shaped machine Matcher.tla model-checked to refine Cgt.tla (MC_Matcher) and replayed exactly; traces recorded from the real matcher (verif hooks) validated by TLC against CgtTrace.tla'),
  'C02': ('tlc-cgt', 'TLA+ spec Cgt.tla conservation invariants model-checked with TLC; the same equalities evaluated on the implementation\'s report for every TLC behaviour'),
  'C03': ('tlc-cgt', 'TLA+ spec Cgt.tla CostConserved invariant model-checked; replay of every behaviour; for cost-event ledgers a second TLC pass (Obs_Cgt.tla) re-runs the spec on the apportionment recorded by the verif hooks and compares legs and pools exactly'),
  'C04': ('tlc-report', 'TLA+ spec Report.tla / MC_Report.tla (per-year totals, exemption look-up) model-checked; per-year totals and identities compared on the real TaxReport'),
@@ -19,12 +19,12 @@ CHECKS = {
  'C08': ('tlc-fx', 'TLA+ spec Fx.tla (load / convert state machine) model-checked with TLC; every behaviour replayed through cgt-money + calculate and a sample through the cgt-tool binary; GBP-twin law'),
  'C09': ('tlc-cgt', 'TLA+ action property OthersUntouched + two-instance projection law (MC_CgtLaw) model-checked; implementation compared with itself on each security\'s projection'),
  'C10': ('tlc-cgt', 'TLA+ two-instance laws (MC_CgtLaw: rescale, split+unsplit) model-checked with TLC; the same relation demanded of two implementation runs; split families replayed against the spec'),
- 'C11': ('tlc-cgt', 'TLA+ spec Cgt.tla cost events (nondeterministic apportionment, s122 refusal) model-checked; TLC observation pass (Obs_Cgt.tla) judges the apportionment recorded by the verif hooks'),
+ 'C11': ('tlc-cgt', 'TLA+ spec Cgt.tla cost events (nondeterministic apportionment, s122 refusal) model-checked; TLC observation pass (Obs_Cgt.tla) judges the apportionment recorded by the verif hooks; the implementation-shaped pre-pass of Matcher.tla (refinement onto Cgt.tla checked by TLC) fixes the apportionment exactly and the per-lot spread recorded by the hooks must equal it'),
  'C13': ('tlc-dsl', 'TLA+ recogniser/meaning function Dsl.tla (written from the README syntax table) evaluated by TLC over every command shape x lexical style x single-token corruption; verdicts compared with the real pest parser incl. error position'),
  'C14': ('tlc-dsl', 'TLA+ Dsl.tla writer/parser round-trip theorems (RoundTrips, Idempotent) checked by TLC; the real DSL writer byte-compared with the spec Write, parsed back, and round-tripped through serde JSON'),
  'C15': ('tlc-cli', 'TLA+ step machine Cli.tla (every command x fault placement; FailureIsClean, DefaultPdfNeverClobbers) model-checked; every scenario staged on disk and run through the real binary; Validator.tla rule and magnitude-class totality replayed in-process'),
  'C16': ('tlc-det', 'TLA+ Determinism.tla: comparators proved strict total orders on every key set by TLC (any hash order sorts to one output); ledgers for those key sets run repeatedly in fresh processes: byte-identical and canonically ordered'),
- 'C17': ('tlc-format', 'TLA+ Format.tla (RoundPence, Gbp, labels) evaluated by TLC for every midpoint and magnitude boundary; strings compared with the plain-text, JSON and PDF (text runs via verif hook) front-ends'),
+ 'C17': ('tlc-format', 'TLA+ Format.tla (RoundPence, Gbp, labels, echoes of transactions and asset events in their own currency, summary / detail / holdings cells) evaluated by TLC for every midpoint and magnitude boundary; strings compared with the plain-text, JSON and PDF (text runs via verif hook) front-ends; MCP figures against the CLI'),
  'C18': ('tlc-schwab', 'TLA+ two-pass machine Schwab.tla model-checked over every export of <= 3/4 rows (invariants: cancel-one, nothing silent, totals); real converter output parsed and compared, row-order and chunking laws'),
  'C19': ('tlc-schwab', 'TLA+ Awards.tla look-up evaluated by TLC over every awards file of <= 2/3 entries around the deposit; real converter compared at 5 base dates'),
  'C20': ('tlc-mcp', 'TLA+ Mcp.tla model-checked (safety + liveness, all interleavings); sessions recorded from the real `cgt-tool mcp` process validated by TLC against the spec (McpTrace.tla) with binding self-tests'),
@@ -40,7 +40,7 @@ ENGINES_EXTRA = [
 ]
 ENGINES = [
  {'name': 'tlc-cgt', 'path': 'spec/Cgt.tla', 'serves_properties': [p for p, (e, _) in CHECKS.items() if e == 'tlc-cgt'],
-  'kind_free_text': 'TLA+ state machine of the share matcher (Cgt.tla) with generator MC_Cgt.tla, two-instance law model MC_CgtLaw.tla and observation pass Obs_Cgt.tla; TLC + Rust replay harness (harness/cgtv)'},
+  'kind_free_text': 'TLA+ state machine of the share matcher (Cgt.tla) with generator MC_Cgt.tla, two-instance law model MC_CgtLaw.tla, observation pass Obs_Cgt.tla, trace specification CgtTrace.tla and the implementation-shaped machine Matcher.tla with its refinement model MC_Matcher.tla; TLC + Rust replay / recording harness (harness/cgtv)'},
  {'name': 'tlc-report', 'path': 'spec/Report.tla', 'serves_properties': [p for p, (e, _) in CHECKS.items() if e == 'tlc-report'],
   'kind_free_text': 'TLA+ Report.tla / Calendar.tla with MC_Report.tla and MC_Calendar.tla; TLC + Rust replay harness'},
  {'name': 'tlc-fx', 'path': 'spec/Fx.tla', 'serves_properties': [p for p, (e, _) in CHECKS.items() if e == 'tlc-fx'],
